@@ -283,9 +283,8 @@ func makeIterator(value any) iterable {
 	case reflect.Map:
 		rv := reflect.ValueOf(value)
 		array := make([][]any, rv.Len())
-		for i, k := range values.SortedMapKeys(rv) {
-			v := rv.MapIndex(k)
-			array[i] = []any{k.Interface(), v.Interface()}
+		for i, entry := range values.SortedMapEntries(rv) {
+			array[i] = []any{entry.Key.Interface(), entry.Value.Interface()}
 		}
 		return sliceWrapper(reflect.ValueOf(array))
 	default:
